@@ -354,7 +354,9 @@ Proof.
   all: assert (Hres : ext p3 p4 /\ Forall (type_cov (checks p4)) types).
   all: try (destruct (bytes_eqb (i_val j) t_Array);
     [ pose proof (same_match [MStr (c x3c)] p3) as Ha; destruct (p_match [MStr (c x3c)] p3) as [[oka capsa] q]; cbn [snd] in Ha;
-      apply parse_type_union_spec in Et as [X1 X2]; [|constructor]; split; [eapply ext_trans; [apply same_ext; exact Ha|exact X1]|exact X2]
+      destruct (parse_type_union (S (length (toks q))) AngledR [] q) as [ts0 q0] eqn:Eu; apply parse_type_union_spec in Eu as [X1 X2]; [|constructor];
+      pose proof (same_match [MOpt [c x2c]] q0) as Hb; destruct (p_match [MOpt [c x2c]] q0) as [[okb capsb] q1]; cbn [snd] in Hb; inversion Et; subst;
+      split; [eapply ext_trans; [apply same_ext; exact Ha|]; eapply ext_trans; [exact X1|apply same_ext; exact Hb]|destruct Hb as (_ & _ & ->); exact X2]
     | destruct (bytes_eqb (i_val j) t_SubjectSet);
       [ destruct (match_subject_set p3) as [t q] eqn:Em; apply match_subject_set_spec in Em as [X1 X2];
         pose proof (same_match arr_suffix q) as Hb; destruct (p_match arr_suffix q) as [[okb capsb] q1]; cbn [snd] in Hb; inversion Et; subst;
